@@ -7,9 +7,10 @@
    Go's map[Registration]ProducerMap is an association list; Go's map iteration order is
    arbitrary, so every list-valued answer is to be read as a (multi)set: theorems speak
    about membership, the judge compares sorted/multiset views.  The only places where the
-   iteration order changes the *content* of an answer are FindProducers with a wildcard
-   key (used by /lookup and /topic/tombstone when the topic argument is the wildcard): there the model exhibits
-   one enabled behaviour (first registration in list order wins), see LookupSpec.v.
+   iteration order changes the *content* of an answer is FindProducers with a wildcard
+   key, reachable only through /lookup with the wildcard as topic (the admin handlers
+   refuse an invalid topic name since the fix commit 109669a): there the model exhibits
+   one enabled behaviour (first registration in list order wins).
 
    Pointers: a Go Producer holds a *PeerInfo shared by all registrations of one
    connection; here a producer holds the connection id and the PeerInfo objects live in
@@ -276,6 +277,8 @@ Definition h_delete_topic (s : state) (q : query) : state * N :=
   | QBad => (s, 400%N)
   | QArgs None _ _ => (s, 400%N)
   | QArgs (Some t) _ _ =>
+      if negb (is_valid_name t) then (s, 400%N)       (* since the fix: the wildcard is refused *)
+      else
       let m1 := remove_all (find_registrations CChannel t star (db s)) (db s) in
       let m2 := remove_all (find_registrations CTopic t [] m1) m1 in
       (set_db s m2, 200%N)
@@ -331,11 +334,15 @@ Definition h_tombstone (s : state) (q : query) : state * N :=
   match q with
   | QBad => (s, 400%N)
   | QArgs None _ _ => (s, 400%N)
-  | QArgs (Some _) _ None => (s, 400%N)
-  | QArgs (Some t) _ (Some node) =>
+  | QArgs (Some t) _ onode =>
+      if negb (is_valid_name t) then (s, 400%N)       (* since the fix: the wildcard is refused *)
+      else match onode with
+      | None => (s, 400%N)
+      | Some node =>
       let hits := filter (fun kp => node_matches s node (p_id (snd kp)))
                          (find_producers_k CTopic t [] (db s)) in
       (set_db s (fold_left (fun m kp => tombstone_in (fst kp) (p_id (snd kp)) (now s) m) hits (db s)), 200%N)
+      end
   end.
 
 (* ------------------------------------------------------------------ queries *)
